@@ -94,6 +94,8 @@ type fmatrix struct {
 	Msgs []fmsg
 	// message types that have / do not have a subscriber in the matrix
 	regTypes, unregTypes []pb.XuperMessage_MessageType
+	// header alphabets
+	froms, bcs []string
 }
 
 const (
@@ -125,6 +127,7 @@ func buildMatrix(tier core.Tier) *fmatrix {
 		bcs = append(bcs, " ", strings.ToUpper(fC1), fC1+"\x00", fC1[1:], fP1)
 		mx.regTypes = append(mx.regTypes, pb.XuperMessage_SENDBLOCK)
 	}
+	mx.froms, mx.bcs = froms, bcs
 	for _, t := range mx.regTypes {
 		for _, fr := range senderFilters {
 			for _, bc := range chainFilters {
@@ -217,6 +220,8 @@ type frig struct {
 	subs []p2p.Subscriber // index = index into mx.Subs; nil if not created
 	mu   sync.Mutex
 	got  map[[2]int]int // (subscriber, message index by log id) -> handler calls
+	// scenario twin (messages share log ids): message object -> index used in got
+	ptr map[*pb.XuperMessage]int
 }
 
 func flogid(mi int) string { return fmt.Sprintf("fm-%05d", mi) }
@@ -246,7 +251,11 @@ func (r *frig) sub(si int) p2p.Subscriber {
 	}
 	h := p2p.HandleFunc(func(c xctx.XContext, m *pb.XuperMessage) (*pb.XuperMessage, error) {
 		mi := -1
-		fmt.Sscanf(m.GetHeader().GetLogid(), "fm-%d", &mi)
+		if k, ok := r.ptr[m]; ok {
+			mi = k
+		} else {
+			fmt.Sscanf(m.GetHeader().GetLogid(), "fm-%d", &mi)
+		}
 		r.mu.Lock()
 		r.got[[2]int{si, mi}]++
 		r.mu.Unlock()
@@ -511,9 +520,10 @@ func runFilters(rep *core.Report, tier core.Tier) {
 	mx := buildMatrix(tier)
 	nm, ns := len(mx.Msgs), len(mx.Subs)
 	type res struct {
-		st   fstats
-		viol []fviol
-		done bool
+		st    fstats
+		viol  []fviol
+		twins int
+		done  bool
 	}
 	results := make([]res, nm)
 	nw := runtime.NumCPU()
@@ -536,6 +546,8 @@ func runFilters(rep *core.Report, tier core.Tier) {
 				for si := 0; si < ns; si++ {
 					r.viol = append(r.viol, scenarioSingle(mx, tier, si, mi, &r.st)...)
 				}
+				tn, tv := scenarioTwinsOf(mx, tier, mi, &r.st)
+				r.twins, r.viol = tn, append(r.viol, tv...)
 				r.done = true
 			}
 		}()
@@ -543,12 +555,14 @@ func runFilters(rep *core.Report, tier core.Tier) {
 	wg.Wait()
 	var tot fstats
 	complete := true
+	twinScenarios := 0
 	for mi := range results {
 		if !results[mi].done {
 			complete = false
 			continue
 		}
 		tot.add(&results[mi].st)
+		twinScenarios += results[mi].twins
 		for _, v := range results[mi].viol {
 			rep.Violation(core.Violation{Key: v.Key, Summary: v.Summary, Case: v.Case})
 		}
@@ -568,7 +582,12 @@ func runFilters(rep *core.Report, tier core.Tier) {
 	// coverage
 	classNames := make([]string, 0, len(tot.classes))
 	deliverClasses, withholdClasses := 0, 0
+	twinClasses := map[string]int{}
 	for k := range tot.classes {
+		if strings.HasPrefix(k, "twin:") {
+			twinClasses[strings.TrimPrefix(k, "twin:")] = tot.classes[k]
+			continue
+		}
 		classNames = append(classNames, k)
 		if strings.HasPrefix(k, "deliver:") {
 			deliverClasses++
@@ -587,7 +606,10 @@ func runFilters(rep *core.Report, tier core.Tier) {
 	rep.Set("dispatch.filter.match_evaluations", tot.matchEvals)
 	rep.Set("dispatch.filter.match_true", tot.matchTrue)
 	rep.Set("dispatch.filter.match_false", tot.matchFalse)
-	rep.Set("dispatch.filter.dispatchers", nm*(1+ns)+1)
+	rep.Set("dispatch.filter.dispatchers", nm*(1+ns)+1+twinScenarios)
+	rep.Set("dispatch.filter.twin_scenarios", twinScenarios)
+	rep.Set("dispatch.filter.twin_scenarios_by_relation", twinClasses)
+	rep.Set("dispatch.filter.twin_rule", "message identity dimension: for every message A of the matrix and every twin B of it (another payload; every other type of the matrix; every other value of the Bcname / From alphabet; another log id; every other cut of Bcname+From, the From | log id boundary one character to either side, the tail of a type's enum name moved into / out of Bcname) a dispatcher with every subscriber registered is handed first, second, a wire copy of the first, a wire copy of the second inside the de-duplication window, for (first, second) = (A, B) and (B, A). Reference: same message iff header tuple (type, chain, sender, log id) AND payload are equal, so A and B are two messages, each handed exactly once to every subscriber matching ITS header, the copies to nobody. twin_scenarios_by_relation counts the judged scenarios per relation of the pair (distinct relations are added to distinct_nontrivial)")
 	rep.Set("dispatch.filter.dispatches", tot.dispatches)
 	rep.Set("dispatch.filter.dispatches_refused", tot.dispatchErr)
 	rep.Set("dispatch.filter.repeats_inside_window", tot.repeats)
@@ -599,10 +621,10 @@ func runFilters(rep *core.Report, tier core.Tier) {
 	rep.Set("dispatch.filter.slowest_dispatch_plus_repeat_ms", int(tot.elapsedMax/time.Millisecond))
 	rep.Set("dispatch.filter.rule", "subscribers = subscriber type x sender filter x chain filter (filter: not given | given as \"\" | given as a value), messages = message type (with / without registered subscribers) x header From x header Bcname x form (built | decoded from the marshalled envelope); header alphabets = empty string, every filter value, proper prefix and extension of the first filter value (thorough: also blank, other case, trailing NUL, proper suffix, the other dimension's value; filters that are a prefix / extension of another filter). Every (subscriber, message) pair is judged through Subscriber.Match and through Dispatch in the scenarios all (every subscriber registered), single (that subscriber alone), shared (one dispatcher for all messages), each dispatch followed by a repeat inside the window, against the reference predicate (filter not given or empty -> any, else equality; same type; exactly once, repeat never). A pair is non-trivial when at least one filter is given with a non-empty value; reference_classes counts the judged pairs per reason the reference delivers / withholds (distinct classes are added to distinct_nontrivial)")
 	rep.Add("evaluations", tot.matchEvals+tot.pairJudgements)
-	rep.Add("distinct_nontrivial", len(classes))
-	rep.Add("states", nm*(1+ns)+1)
+	rep.Add("distinct_nontrivial", len(classes)+len(twinClasses))
+	rep.Add("states", nm*(1+ns)+1+twinScenarios)
 	rep.Add("transitions", tot.dispatches+tot.repeats)
-	rep.Add("traces_validated_against_impl", nm*(1+ns)+1)
+	rep.Add("traces_validated_against_impl", nm*(1+ns)+1+twinScenarios)
 	rep.Sample(map[string]interface{}{"part": "dispatch-filter", "first_subscriber": mx.Subs[0].String(), "last_subscriber": mx.Subs[ns-1].String(),
 		"first_message": mx.Msgs[0].String(), "last_message": mx.Msgs[nm-1].String(), "deliveries": tot.deliveries})
 }
@@ -622,6 +644,8 @@ func replayFilter(c json.RawMessage) (bool, string, error) {
 		Tier     string `json:"tier"`
 		Sub      int    `json:"sub"`
 		Msg      int    `json:"msg"`
+		Twin     int    `json:"twin"`
+		Order    int    `json:"order"`
 	}
 	if err := json.Unmarshal(c, &cs); err != nil {
 		return false, "", err
@@ -652,6 +676,8 @@ func replayFilter(c json.RawMessage) (bool, string, error) {
 		v = scenarioSingle(mx, tier, cs.Sub, cs.Msg, &st)
 	case "shared":
 		v = scenarioShared(mx, tier, cs.Msg, &st)
+	case "twin":
+		v = scenarioTwin(mx, tier, cs.Msg, cs.Twin, cs.Order, &st)
 	default:
 		return false, "", fmt.Errorf("unknown filter scenario %q", cs.Scenario)
 	}
